@@ -416,6 +416,30 @@ struct State {
     /// C19: a `false` verdict resets the connection instead of answering ERROR (a multi-node fetch tolerates an
     /// ERROR on `system.local` alone - the row is "skipped" -, a broken connection fails it)
     meta_fail_reset: bool,
+    /// C10 `metaf`: a one-shot scripted fault on the next metadata request on one system table (`set_meta_fault`)
+    meta_fault: Option<MetaFault>,
+    /// C10 `metaf`: (node, conn, clock) of the request that met the fault
+    meta_fault_fired: Option<(usize, usize, u64)>,
+}
+
+/// C10 `metaf`: what the node does INSTEAD of answering the next metadata request on `table` (one shot).
+pub struct MetaFault {
+    /// e.g. `system_schema.scylla_tables`
+    pub table: String,
+    /// hit the PREPARE of the rows statement instead of its QUERY / EXECUTE
+    pub on_prepare: bool,
+    pub acts: Vec<Act>,
+    /// from then on this connection reads and records frames but answers nothing (not even keep-alives)
+    pub silence: bool,
+}
+
+/// The PREPARE of the rows statement (not the schema_version one) of a system table.
+fn is_rows_prepare_of(parsed: &Parsed, table: &str) -> bool {
+    let idx = SYSTEM_TEXTS.iter().position(|s| *s == table);
+    match parsed {
+        Parsed::Prepare { text } => system_statement(text) && classify(text).is_some_and(|(ti, ver)| Some(ti) == idx && !ver),
+        _ => false,
+    }
 }
 
 /// The control connection's `SELECT … FROM system.local WHERE key='local'` (QUERY or EXECUTE of the prepared id).
@@ -518,6 +542,8 @@ impl MockCluster {
                 meta_verdict: None,
                 meta_held_nodes: Vec::new(),
                 meta_fail_reset: false,
+                meta_fault: None,
+                meta_fault_fired: None,
             }),
             handler: Mutex::new(handler),
         });
@@ -726,6 +752,18 @@ impl MockCluster {
         self.shared.st.lock().unwrap().meta_fail_reset = on;
     }
 
+    /// C10 `metaf`: arms a one-shot fault on the next metadata request on `f.table`.
+    pub fn set_meta_fault(&self, f: MetaFault) {
+        let mut st = self.shared.st.lock().unwrap();
+        st.meta_fault = Some(f);
+        st.meta_fault_fired = None;
+    }
+
+    /// C10 `metaf`: (node, conn, clock) of the request that met the armed fault, once it has.
+    pub fn meta_fault_fired(&self) -> Option<(usize, usize, u64)> {
+        self.shared.st.lock().unwrap().meta_fault_fired
+    }
+
     /// C19: the node whose gated metadata query is held right now, if any.
     pub fn meta_held_node(&self) -> Option<usize> {
         self.shared.st.lock().unwrap().meta_held_nodes.first().copied()
@@ -734,6 +772,11 @@ impl MockCluster {
     /// C19: changes the datacenter a node reports (in every node's `system.local` / `system.peers` rows from now on).
     pub fn set_node_dc(&self, node: usize, dc: &str) {
         self.shared.st.lock().unwrap().topo.nodes[node].dc = dc.to_owned();
+    }
+
+    /// C20: changes the rack a node reports (in every node's `system.local` / `system.peers` rows from now on).
+    pub fn set_node_rack(&self, node: usize, rack: &str) {
+        self.shared.st.lock().unwrap().topo.nodes[node].rack = rack.to_owned();
     }
 
     /// Has the verdict handed out by `release_meta` not been consumed by a gated query yet?
@@ -904,6 +947,8 @@ async fn serve_conn(
 ) {
     // SCYLLA_USE_METADATA_ID negotiated on this connection (opt-in, see `MockCluster::enable_metadata_id_ext`)
     let mut ext_on = false;
+    // C10 `metaf`: set by a fault with `silence`
+    let mut silenced = false;
     loop {
         let fr = tokio::select! {
             f = read_frame(&mut sock) => f,
@@ -995,8 +1040,21 @@ async fn serve_conn(
                 internal_actions = Some(vec![if reset { Act::Reset } else { act_error(0x0000, "scripted metadata failure", &[]) }]);
             }
         }
+        // C10 `metaf`: the one-shot scripted fault on a metadata request (`set_meta_fault`)
+        let was_silenced = silenced;
+        if req.internal {
+            let mut st = shared.st.lock().unwrap();
+            let hit = st.meta_fault.as_ref().is_some_and(|f| if f.on_prepare { is_rows_prepare_of(&req.parsed, &f.table) } else { is_rows_query_of(&req.parsed, &f.table) });
+            if hit {
+                let f = st.meta_fault.take().unwrap();
+                st.meta_fault_fired = Some((node, conn, req.seq));
+                silenced = f.silence;
+                internal_actions = Some(f.acts);
+            }
+        }
         let is_startup = matches!(req.parsed, Parsed::Startup(_));
         let actions = match internal_actions {
+            _ if was_silenced => Vec::new(),
             Some(a) => a,
             None => (shared.handler.lock().unwrap())(&req),
         };
@@ -1294,6 +1352,13 @@ fn system_rows(st: &State, node: usize, table_idx: usize, wants_version: bool) -
             let views: Vec<(String, TableSpec, String)> = VIEWS.lock().unwrap().clone();
             for k in &st.topo.keyspaces {
                 for t in k.tables.iter().chain(views.iter().filter(|(vk, _, _)| *vk == k.name).map(|(_, v, _)| v)) {
+                    // C03's `pkfetch`: the column rows of a registered table are served verbatim, in the registered order
+                    if let Some(over) = column_rows_override(&k.name, &t.name) {
+                        for (c, kind, p, ty) in &over {
+                            rows.push(vec![c_text(&k.name), c_text(&t.name), c_text(c), c_text(kind), c_int(*p), c_text(ty)]);
+                        }
+                        continue;
+                    }
                     let groups: [(&str, &Vec<(String, String)>); 3] =
                         [("partition_key", &t.partition_key), ("clustering", &t.clustering), ("regular", &t.regular)];
                     for (kind, cols) in groups {
@@ -1332,6 +1397,16 @@ pub static TABLE_PARTITIONERS: Mutex<Vec<(String, String)>> = Mutex::new(Vec::ne
 /// Materialized views `system_schema.views` / `system_schema.columns` report: (keyspace, the view's columns as a
 /// `TableSpec`, base table name). Process-wide like TABLE_PARTITIONERS; only C03's `sesspart` registers views.
 pub static VIEWS: Mutex<Vec<(String, TableSpec, String)>> = Mutex::new(Vec::new());
+
+/// `system_schema.columns` rows served VERBATIM (column, kind, position, type - in this order of rows) for the table
+/// `"<keyspace>.<table>"` instead of the rows derived from its `TableSpec`. Only C03's `pkfetch` family registers rows
+/// (for a table no other family uses): real servers return these rows sorted by column NAME, not by key position.
+pub static COLUMN_ROWS: Mutex<Vec<(String, Vec<(String, String, i32, String)>)>> = Mutex::new(Vec::new());
+
+fn column_rows_override(ks: &str, table: &str) -> Option<Vec<(String, String, i32, String)>> {
+    let key = format!("{ks}.{table}");
+    COLUMN_ROWS.lock().unwrap().iter().find(|(k, _)| *k == key).map(|(_, r)| r.clone())
+}
 
 fn table_partitioner(ks: &str, table: &str) -> Option<String> {
     let key = format!("{ks}.{table}");
